@@ -6,8 +6,8 @@
   `renderFixed`, `renderOffset`: the documentation table over the independent calendar of
   Spec/Calendar.lean; numerals are core's `Nat.toDigits 10`).  Lemmas: Proofs/FormatL.lean,
   Proofs/FormatFin.lean, Proofs/FormatIsoL.lean (ISO week), Proofs/StrftimeL.lean (iterator progress).
-  Not proved here, only compared and oracle-checked on the implementation: `%+`/RFC 3339 and RFC 2822
-  text (see props/C12.json).  A date is `dateOfYo y o` (the `o`-th day of year `y`) as in C01, a time any
+  `%+`/RFC 3339 and the RFC 2822 item are proved equal to their expansions into the specifiers above
+  (`rfc3339_item_is_expansion`, `rfc2822_item_text`; Proofs/FormatRfcL.lean).  A date is `dateOfYo y o` (the `o`-th day of year `y`) as in C01, a time any
   `TValid` value (leap-second representation allowed on any second), an offset any `|off| < 86400`.
 
   `wok text` = the text was written; `werr` = `Err(fmt::Error)`.
@@ -15,6 +15,7 @@
 import Chrono.Proofs.FormatL
 import Chrono.Proofs.StrftimeL
 import Chrono.Proofs.FormatIsoL
+import Chrono.Proofs.FormatRfcL
 import Chrono.Extracted.SpecTable
 
 namespace Chrono.Props.C12
@@ -222,6 +223,71 @@ theorem unknown_or_missing_fails :
     cases d <;> cases t <;> cases f <;> first | rfl | (exfalso; revert hf; decide)
   · intro d t off
     cases d <;> cases t <;> cases off <;> rfl
+
+/-! ### the two composite fixed items: `%+` (RFC 3339) and RFC 2822 -/
+
+/-- **`%+` is its documented expansion `%Y-%m-%dT%H:%M:%S%.f%:z`**, for EVERY zone-aware value: any
+date of the range (negative and five/six-digit years: both print a sign and at least four digits),
+any time incl. the leap-second representation (`:60`, fraction taken modulo one second), and ANY
+offset incl. offsets with seconds (both round to the nearest minute).  Same bytes, same `Err`, same
+panic (`formatItemsR` keeps the three apart; `formatItems` is the `Option` the harness observes).
+No exception was found: the two year writers (`{:+05}` outside 0..=9999 versus `write_n(4, …,
+always_sign)`), the two fraction selectors and the two offset formats coincide everywhere. -/
+theorem rfc3339_item_is_expansion (y : Int) (o : Nat) (hy : MIN_YEAR ≤ y ∧ y ≤ MAX_YEAR)
+    (ho : 1 ≤ o ∧ o ≤ yearLen y) (t : Time) (ht : TValid t) (name : List Nat) (off : Int) :
+    items (str "%+") = [.fixed .rfc3339] ∧
+    formatItemsR (some (dateOfYo y o)) (some t) (some (name, off)) (items (str "%+")) =
+      formatItemsR (some (dateOfYo y o)) (some t) (some (name, off)) (items (str "%Y-%m-%dT%H:%M:%S%.f%:z")) ∧
+    formatItems (some (dateOfYo y o)) (some t) (some (name, off)) (items (str "%+")) =
+      formatItems (some (dateOfYo y o)) (some t) (some (name, off)) (items (str "%Y-%m-%dT%H:%M:%S%.f%:z")) := by
+  obtain ⟨_, _, _, hm, hd, hv, _, _, _⟩ := Props.C01.accessors_ok y o hy ho
+  have hb := Proofs.valid_bounds y _ _ hv
+  have h := FormatRfc.rfc3339_expansion (dateOfYo y o) t name off _ _ hm hd (by omega) (by omega) ht
+  rw [FormatRfc.items_fin.1, FormatRfc.items_fin.2.1]
+  refine ⟨rfl, h, ?_⟩
+  unfold formatItems
+  rw [h]
+
+/-- **the RFC 2822 item** (`Fixed::RFC2822`, what `to_rfc2822` writes) is the text of
+`%a, %-d %b %Y %H:%M:%S %z` — day of month WITHOUT padding, four-digit year, seconds `60` on a leap
+second, offset `±hhmm` rounded to the minute — exactly on years 0..=9999; on every other year it is
+`Err(fmt::Error)` while the expansion would still print -/
+theorem rfc2822_item_text (y : Int) (o : Nat) (hy : MIN_YEAR ≤ y ∧ y ≤ MAX_YEAR)
+    (ho : 1 ≤ o ∧ o ≤ yearLen y) (t : Time) (ht : TValid t) (name : List Nat) (off : Int) :
+    (0 ≤ y ∧ y ≤ 9999 →
+      formatItemsR (some (dateOfYo y o)) (some t) (some (name, off)) [.fixed .rfc2822] =
+        formatItemsR (some (dateOfYo y o)) (some t) (some (name, off)) (items (str "%a, %-d %b %Y %H:%M:%S %z")) ∧
+      formatItems (some (dateOfYo y o)) (some t) (some (name, off)) [.fixed .rfc2822] =
+        formatItems (some (dateOfYo y o)) (some t) (some (name, off)) (items (str "%a, %-d %b %Y %H:%M:%S %z"))) ∧
+    (¬ (0 ≤ y ∧ y ≤ 9999) →
+      formatItems (some (dateOfYo y o)) (some t) (some (name, off)) [.fixed .rfc2822] = none) := by
+  obtain ⟨hyr, _, _, hm, hd, hv, _, _, _⟩ := Props.C01.accessors_ok y o hy ho
+  have hb := Proofs.valid_bounds y _ _ hv
+  constructor
+  · intro h09
+    have h := FormatRfc.rfc2822_expansion (dateOfYo y o) t name off _ _ hm hd (by omega) ht (by rw [hyr]; exact h09)
+    rw [FormatRfc.items_fin.2.2]
+    refine ⟨h, ?_⟩
+    unfold formatItems
+    rw [h]
+  · intro h09
+    unfold formatItems
+    rw [FormatRfc.rfc2822_out_of_range (dateOfYo y o) t name off (by rw [hyr]; exact h09)]
+    rfl
+
+/-- non-vacuity (kernel evaluation; the three texts are what the crate itself prints for these values):
+year 12345 with a leap second and a half-hour offset; year −5 with an offset that rounds to 24:00
+(RFC 2822 refuses the year); the documentation's leap-second example in RFC 2822 form -/
+example :
+    let t : Time := ⟨2099, 1026490000⟩
+    formatItems (some (dateOfYo 12345 189)) (some t) (some ([], 34200)) (items (str "%+"))
+      = some (str "+12345-07-08T00:34:60.026490+09:30") ∧
+    formatItems (some (dateOfYo (-5) 63)) (some ⟨2099, 0⟩) (some ([], -86370)) (items (str "%+"))
+      = some (str "-0005-03-04T00:34:59-24:00") ∧
+    formatItems (some (dateOfYo (-5) 63)) (some ⟨2099, 0⟩) (some ([], -86370)) [.fixed .rfc2822] = none ∧
+    formatItems (some (dateOfYo 2001 189)) (some ⟨2099, 1000000000⟩) (some ([], 3600)) [.fixed .rfc2822]
+      = some (str "Sun, 8 Jul 2001 00:34:60 +0100") := by
+  decide +kernel
 
 /-! ### the item iterator ends (also used by C15) -/
 
